@@ -128,6 +128,164 @@ def m_checked_neg(I, st, a):
     return SEnum("Option", z3.If(x.t == mn, z3.BitVecVal(0, 64), z3.BitVecVal(1, 64)), {1: {0: SInt(-x.t, x.bits, x.signed)}})
 
 
+def _min_of(bits):
+    return z3.BitVecVal(1 << (bits - 1), bits)
+
+
+def m_checked_div(rem=False):
+    def f(I, st, a):
+        x, y = a
+        bits, sg = x.bits, x.signed
+        zero = y.t == 0
+        if sg:
+            ovf = z3.And(x.t == _min_of(bits), y.t == z3.BitVecVal(-1, bits))
+            bad = z3.Or(zero, ovf)
+            safe_y = z3.If(bad, z3.BitVecVal(1, bits), y.t)
+            val = z3.SRem(x.t, safe_y) if rem else x.t / safe_y
+        else:
+            bad = zero
+            safe_y = z3.If(bad, z3.BitVecVal(1, bits), y.t)
+            val = z3.URem(x.t, safe_y) if rem else z3.UDiv(x.t, safe_y)
+        return SEnum("Option", z3.If(bad, z3.BitVecVal(0, 64), z3.BitVecVal(1, 64)), {1: {0: SInt(val, bits, sg)}})
+    f.__name__ = "m_checked_" + ("rem" if rem else "div")
+    return f
+
+
+def m_wrapping_neg(I, st, a):
+    x = a[0]
+    return SInt(-x.t, x.bits, x.signed)
+
+
+def m_saturating_mul(I, st, a):
+    x, y = a
+    bits, sg = x.bits, x.signed
+    if sg:
+        w = z3.SignExt(bits, x.t) * z3.SignExt(bits, y.t)
+        hi, lo = z3.BitVecVal((1 << (bits - 1)) - 1, 2 * bits), z3.BitVecVal(-(1 << (bits - 1)), 2 * bits)
+        r = z3.If(w > hi, hi, z3.If(w < lo, lo, w))
+    else:
+        w = z3.ZeroExt(bits, x.t) * z3.ZeroExt(bits, y.t)
+        hi = z3.BitVecVal((1 << bits) - 1, 2 * bits)
+        r = z3.If(z3.UGT(w, hi), hi, w)
+    return SInt(z3.Extract(bits - 1, 0, r), bits, sg)
+
+
+def m_overflowing(op):
+    def f(I, st, a):
+        x, y = a
+        bits, sg = x.bits, x.signed
+        ext = (lambda t: z3.SignExt(bits, t)) if sg else (lambda t: z3.ZeroExt(bits, t))
+        wide = {"add": ext(x.t) + ext(y.t), "sub": ext(x.t) - ext(y.t), "mul": ext(x.t) * ext(y.t)}[op]
+        low = z3.Extract(bits - 1, 0, wide)
+        ovf = ext(low) != wide
+        return SAgg("tuple", "", {0: SInt(low, bits, sg), 1: SBool(ovf)})
+    f.__name__ = "m_overflowing_" + op
+    return f
+
+
+def m_abs_diff(I, st, a):
+    x, y = a
+    lt = (x.t < y.t) if x.signed else z3.ULT(x.t, y.t)
+    return SInt(z3.If(lt, y.t - x.t, x.t - y.t), x.bits, False)
+
+
+def m_signum(I, st, a):
+    x = a[0]
+    b = x.bits
+    return SInt(z3.If(x.t == 0, z3.BitVecVal(0, b), z3.If(x.t < 0, z3.BitVecVal(-1, b), z3.BitVecVal(1, b))), b, True)
+
+
+def m_is_negative(I, st, a):
+    return SBool(a[0].t < 0)
+
+
+def m_is_positive(I, st, a):
+    return SBool(a[0].t > 0)
+
+
+def m_clamp(I, st, a):
+    x, lo, hi = a
+    lt = (lambda p, q: p < q) if x.signed else z3.ULT
+    bad = lt(hi.t, lo.t)
+    val = SInt(z3.If(lt(x.t, lo.t), lo.t, z3.If(lt(hi.t, x.t), hi.t, x.t)), x.bits, x.signed)
+    return [(z3.Not(bad), val), (bad, ("panic", "assertion failed: min <= max"))]
+
+
+def m_checked_abs(I, st, a):
+    x = a[0]
+    bad = x.t == _min_of(x.bits)
+    return SEnum("Option", z3.If(bad, z3.BitVecVal(0, 64), z3.BitVecVal(1, 64)), {1: {0: SInt(z3.If(x.t < 0, -x.t, x.t), x.bits, True)}})
+
+
+def m_saturating_neg(I, st, a):
+    x = a[0]
+    b = x.bits
+    return SInt(z3.If(x.t == _min_of(b), z3.BitVecVal((1 << (b - 1)) - 1, b), -x.t), b, True)
+
+
+def m_saturating_abs(I, st, a):
+    x = a[0]
+    b = x.bits
+    return SInt(z3.If(x.t == _min_of(b), z3.BitVecVal((1 << (b - 1)) - 1, b), z3.If(x.t < 0, -x.t, x.t)), b, True)
+
+
+def m_wrapping_abs(I, st, a):
+    x = a[0]
+    return SInt(z3.If(x.t < 0, -x.t, x.t), x.bits, True)
+
+
+# ---------------------------------------------------------------- Option / Result without closures
+def m_ok_or(I, st, a):
+    o, e = a
+    d = disc_term(o)
+    pay = {1: {0: e}}
+    if 1 in o.pay:
+        pay[0] = dict(o.pay[1])
+    return SEnum("Result", z3.If(d == 1, z3.BitVecVal(0, 64), z3.BitVecVal(1, 64)) if not isinstance(o.disc, int) else (0 if o.disc == 1 else 1), pay)
+
+
+def m_result_ok(I, st, a):
+    r = a[0]
+    d = disc_term(r)
+    pay = {}
+    if 0 in r.pay:
+        pay[1] = dict(r.pay[0])
+    return SEnum("Option", z3.If(d == 0, z3.BitVecVal(1, 64), z3.BitVecVal(0, 64)) if not isinstance(r.disc, int) else (1 if r.disc == 0 else 0), pay)
+
+
+def m_result_err(I, st, a):
+    r = a[0]
+    d = disc_term(r)
+    pay = {}
+    if 1 in r.pay:
+        pay[1] = dict(r.pay[1])
+    return SEnum("Option", z3.If(d == 1, z3.BitVecVal(1, 64), z3.BitVecVal(0, 64)) if not isinstance(r.disc, int) else (1 if r.disc == 1 else 0), pay)
+
+
+def m_option_or(I, st, a):
+    x, y = a
+    return alts(is_variant(x, 1), x, y)
+
+
+def m_option_and(I, st, a):
+    x, y = a
+    return alts(is_variant(x, 1), y, none())
+
+
+def m_option_take(I, st, a):
+    r = a[0]
+    v = deref(I, st, r)
+    I.write(st, r.depth, r.place, none())
+    return v
+
+
+def m_result_unwrap_or(I, st, a):
+    r, d = a
+    if 0 in r.pay and 0 in r.pay[0]:
+        return alts(is_variant(r, 0), r.pay[0][0], d)
+    return d
+
+
 def m_leading_zeros(I, st, a):
     x, = a
     n = x.bits
@@ -435,6 +593,30 @@ TABLE = [
     (r"^core::num::<impl [iu]\w+>::checked_sub$", m_checked("sub")),
     (r"^core::num::<impl [iu]\w+>::checked_mul$", m_checked("mul")),
     (r"^core::num::<impl i\w+>::checked_neg$", m_checked_neg),
+    (r"^core::num::<impl [iu]\w+>::checked_div$", m_checked_div(False)),
+    (r"^core::num::<impl [iu]\w+>::checked_rem$", m_checked_div(True)),
+    (r"^core::num::<impl [iu]\w+>::wrapping_neg$", m_wrapping_neg),
+    (r"^core::num::<impl [iu]\w+>::saturating_mul$", m_saturating_mul),
+    (r"^core::num::<impl [iu]\w+>::overflowing_add$", m_overflowing("add")),
+    (r"^core::num::<impl [iu]\w+>::overflowing_sub$", m_overflowing("sub")),
+    (r"^core::num::<impl [iu]\w+>::overflowing_mul$", m_overflowing("mul")),
+    (r"^core::num::<impl [iu]\w+>::abs_diff$", m_abs_diff),
+    (r"^core::num::<impl i\w+>::signum$", m_signum),
+    (r"^core::num::<impl i\w+>::is_negative$", m_is_negative),
+    (r"^core::num::<impl i\w+>::is_positive$", m_is_positive),
+    (r"^core::num::<impl i\w+>::checked_abs$", m_checked_abs),
+    (r"^core::num::<impl i\w+>::saturating_neg$", m_saturating_neg),
+    (r"^core::num::<impl i\w+>::saturating_abs$", m_saturating_abs),
+    (r"^core::num::<impl i\w+>::wrapping_abs$", m_wrapping_abs),
+    (r"^<[iu]\w+ as Ord>::clamp$|^(std|core)::cmp::Ord::clamp$", m_clamp),
+    (r"^(std|core)::option::Option::<.*>::ok_or$", m_ok_or),
+    (r"^(std|core)::result::Result::<.*>::ok$", m_result_ok),
+    (r"^(std|core)::result::Result::<.*>::err$", m_result_err),
+    (r"^(std|core)::option::Option::<.*>::or$", m_option_or),
+    (r"^(std|core)::option::Option::<.*>::and$", m_option_and),
+    (r"^(std|core)::option::Option::<.*>::take$", m_option_take),
+    (r"^(std|core)::option::Option::<.*>::(copied|cloned|as_ref|as_mut|as_deref)$", m_identity),
+    (r"^(std|core)::result::Result::<.*>::unwrap_or$", m_result_unwrap_or),
     (r"^core::num::<impl [iu]\w+>::leading_zeros$", m_leading_zeros),
     (r"^core::num::<impl i\w+>::abs$", m_abs),
     (r"^core::num::<impl i\w+>::unsigned_abs$", m_unsigned_abs),
